@@ -102,6 +102,33 @@ impl Loader {
     }
 }
 
+/// Verification hooks (compiled only under `cfg(kani)` / `--cfg rspirv_verif`).
+#[cfg(any(kani, rspirv_verif))]
+impl Loader {
+    /// Builds a `Loader` directly from its parts (arbitrary automaton state).
+    pub fn verif_from_parts(
+        module: dr::Module,
+        function: Option<dr::Function>,
+        block: Option<dr::Block>,
+    ) -> Loader {
+        Loader {
+            module,
+            function,
+            block,
+        }
+    }
+
+    /// Takes the loader apart again.
+    pub fn verif_into_parts(self) -> (dr::Module, Option<dr::Function>, Option<dr::Block>) {
+        (self.module, self.function, self.block)
+    }
+
+    /// Borrows the parts.
+    pub fn verif_parts(&self) -> (&dr::Module, &Option<dr::Function>, &Option<dr::Block>) {
+        (&self.module, &self.function, &self.block)
+    }
+}
+
 /// Returns `$error` if `$condition` evaluates to false.
 macro_rules! if_ret_err {
     ($condition: expr, $error: ident) => {
